@@ -135,12 +135,28 @@ def run_version(args):
             await settle()
 
         def call_args(tx_schema, txi, vals, keyword):
+            """keyword: False = positional; True = keywords in declared order; 'rev' = keywords in reverse order;
+            'mixed' = a positional prefix, the remaining arguments as keywords in a shuffled order"""
             if txi is None:
                 return [], {}
             if isinstance(tx_schema, dict):
-                return ([], {n: v for (n, _ty), v in zip(txi, vals)}) if keyword else (list(vals), {})
-            st = vals[0]
-            return ([], {f.name: getattr(st, f.name) for f in st.fields}) if keyword else ([getattr(st, f.name) for f in st.fields], {})
+                names, values = [n for (n, _ty) in txi], list(vals)
+            else:
+                st = vals[0]
+                names, values = [f.name for f in st.fields], [getattr(st, f.name) for f in st.fields]
+            if not keyword:
+                return values, {}
+            pairs = list(zip(names, values))
+            if keyword == "rev":
+                return [], dict(reversed(pairs))
+            if keyword == "mixed":
+                k = rng.randrange(0, max(1, len(pairs) - 1))
+                rest = pairs[k:]
+                rng.shuffle(rest)
+                if len(rest) >= 2 and rest == pairs[k:]:
+                    rest.reverse()
+                return values[:k], dict(rest)
+            return [], dict(pairs)
 
         async def feed(rv, task, rxi, pending, rseq, cid):
             """encode a generated value tuple, feed it through the receive path, record what came out"""
@@ -188,11 +204,17 @@ def run_version(args):
                     vals = [gen(ty, rng) for _n, ty in txi]
                     ev["chunks"] = [list(v.serialize()) for v in vals]
                 rxevs = []
-                for keyword in (False, True):
+                nargs = (len(txi) if isinstance(tx_schema, dict) else len(vals[0].fields)) if txi is not None and vals else 0
+                forms = (False, True) + (("rev", "mixed") if nargs >= 2 else ())
+                ev["forms"] = []
+                for keyword in forms:
                     s0 = proto._seq
                     a, kw = call_args(tx_schema, txi, vals, keyword)
                     task, d, x = await start_call(name, a, kw)
-                    ev["kw" if keyword else "pos"] = list(d or b"")
+                    if keyword in (False, True):
+                        ev["kw" if keyword else "pos"] = list(d or b"")
+                    else:
+                        ev["forms"].append(list(d or b""))
                     ev["raised"] = ev["raised"] or x
                     # complete the call with a generated response (also the receive-path test for a pending call)
                     rv = {"a": "rx", "ver": ver, "name": name, "id": int(cid), "pending": 1, "raised": "", "fc": 0x80,
@@ -247,7 +269,7 @@ def run(ctx: Ctx):
     ctx.evaluations = nev
     ctx.distinct_nontrivial = len({(e.get("ver"), e.get("name"), e["a"], e.get("pending")) for t in traces for e in t})
     ctx.rule = (f"per protocol version 4..14: the command table (ID uniqueness), and for every command {samples} sample(s) of: a positional and a keyword "
-                "call through the real call path, and a generated response value tuple through the receive path once as result of a pending call and once "
+                "call (keywords in declared order, in reverse order, and a positional prefix followed by shuffled keywords) through the real call path, and a generated response value tuple through the receive path once as result of a pending call and once "
                 "as callback; values generated from the schema types (boundaries, undefined enum values, empty and long variable-length fields); "
                 "distinct = distinct (version, command, direction)")
     ctx.add_sample(next(e for e in traces[3] if e["a"] == "tx"))
